@@ -263,6 +263,15 @@ func c14IterCfgs() []Cfg {
 func c14IterTranscript(w *World, keys []string, rev bool, prefix string, calls []itCall, vals map[string]string) (string, bool) {
 	var b strings.Builder
 	pruned := false
+	var undo []func()
+	defer func() {
+		w.guard(func() error {
+			for i := len(undo) - 1; i >= 0; i-- {
+				undo[i]()
+			}
+			return nil
+		})
+	}()
 	err := w.guard(func() error {
 		it := w.DB.NewIterator(kv.IteratorOptions{Prefix: []byte(prefix), Reverse: rev})
 		defer it.Close()
@@ -286,7 +295,24 @@ func c14IterTranscript(w *World, keys []string, rev bool, prefix string, calls [
 				it.Seek([]byte(c.T))
 				m.seek(c.T)
 			case "write":
-				continue
+				// an interleaved write while the iterator is open (undone after the sequence): the iterator's snapshot
+				// must not move under ANY index implementation
+				switch c.T {
+				case "put-new":
+					nk := c10NewKey
+					w.DB.Put([]byte(nk), []byte("new"))
+					undo = append(undo, func() { w.DB.Delete([]byte(nk)) })
+				case "overwrite", "delete":
+					if len(keys) > 0 {
+						k := keys[len(keys)/2]
+						if c.T == "overwrite" {
+							w.DB.Put([]byte(k), []byte("overwritten"))
+						} else {
+							w.DB.Delete([]byte(k))
+						}
+						undo = append(undo, func() { w.DB.Put([]byte(k), []byte(vals[k])) })
+					}
+				}
 			}
 			if it.Valid() {
 				v, err := it.Value()
@@ -337,11 +363,6 @@ func c14IterTasks(tier string) []Task {
 				for _, pfx := range []string{"", "a"} {
 					stop := false
 					enumCalls(l, bnd, func(calls []itCall) bool {
-						for _, c := range calls {
-							if c.K == "write" {
-								return true // interleaved writes belong to C10
-							}
-						}
 						progressTick.Add(1)
 						first := ""
 						for i, w := range worlds {
@@ -383,7 +404,7 @@ func init() {
 	register(&Check{
 		Prop:   "C14",
 		Engine: "seq",
-		Rule:   "every operation sequence within the bound is executed in lock-step under every configuration of the set (adversarial caller: reused, poisoned key/value buffers); all transcripts (every return value / error class, Get of every key, ListKeys, Fold, iterators both ways, KeyNum, and the same after a final restart) must be identical; within equal (DataFileSize, sync strategy) also the full Stat and, for batch-free sequences, the data-file bytes after Close. plus an iterator lock-step level: every key set of >= 3 of 6 keys x direction x prefix x every iterator call sequence (Rewind/Seek/Next) must give identical (Valid, Key, Value) transcripts under all 12 (index type, shard count) configurations. non-trivial = a universe key was both present and absent during the sequence / every iterator call sequence",
+		Rule:   "every operation sequence within the bound is executed in lock-step under every configuration of the set (adversarial caller: reused, poisoned key/value buffers); all transcripts (every return value / error class, Get of every key, ListKeys, Fold, iterators both ways, KeyNum, and the same after a final restart) must be identical; within equal (DataFileSize, sync strategy) also the full Stat and, for batch-free sequences, the data-file bytes after Close. plus an iterator lock-step level: every key set of >= 3 of 6 keys x direction x prefix x every iterator call sequence (Rewind/Seek/Next/one interleaved write) must give identical (Valid, Key, Value) transcripts under all 12 (index type, shard count) configurations. non-trivial = a universe key was both present and absent during the sequence / every iterator call sequence",
 		Assumptions: []string{
 			"inputs are identical across configurations (fixed value lengths 3/39/210/0 bytes)",
 			"batch ids are time-based, so file bytes are compared for batch-free sequences only",
